@@ -45,6 +45,7 @@ OpsDrvP == {"set", "mul", "get", "drv"}
 OpsRevP == {"set", "mul", "get", "add"}
 OpsRec == {"get", "set", "mul", "add", "const"}
 OpsDrvO == {"get", "set", "mul", "drv", "other"}
+OpsDrvX == {"get", "mul", "drv"}                 \* driver histories over several evaluation points (DrvX <- XCat)
 OpsH2 == {"get", "set", "div", "pow"}
 OpsDrvA == {"get", "set", "mul", "div", "sum", "drv"}
 OpsDrvB == {"get", "rev", "pow", "sub", "sum", "drv"}
